@@ -5,7 +5,7 @@ list at distinct positions, the reported sum is the sum of the selected values, 
 least target + min-change; chooseUtxos moves exactly the selection from the unspent to the spent record; over
 deposit/withdrawal histories no outpoint is selected twice; the change output is never negative).
 Tie: correspondence stream `btcsel` (harness hbtc executes the real CoinSelector.Select / SimpleBnbSearch /
-SortedSearch and chooseUtxos on a real CacheDB through the `verif` wrappers; driver drv_btc executes the model
+SortedSearch, chooseUtxos and makeBtcTx on a real CacheDB through the `verif` wrappers; driver drv_btc executes the model
 with IEEE doubles for the float tests).
 Search: the harness evaluates the property itself on every answer of the implementation (sum of the selected
 values vs reported sum, membership, target condition, record bookkeeping, no re-selection).
@@ -20,7 +20,7 @@ def run(ctx):
         "btcd script classification (GetScriptClass, IsPayToScriptHash) is external: supplied per output in the op line and "
         "re-checked against the library inside the harness",
         "uint64 sums do not wrap: total value of a UTXO set and target+min-change are below 2^64 (values are satoshi amounts)",
-        "sort.Sort is modelled as insertion sort; the two agree on lists whose (value, hash) keys are pairwise different",
+        "sort.Sort is modelled as stable insertion sort (the algorithm sort.Sort uses below 12 elements); with pairwise different outpoints the order (value, tx hash, output index) is total, so every correct sort gives the same list",
     ]
     ctx.cov["trusted_base"] += ["harness hbtc/btcsel + drv_btc (correspondence check)", "Lean compiler for the driver",
                                 "verif hook native/service/cross_chain_manager/btc/verif_hooks.go (exported wrappers only)"]
